@@ -146,7 +146,8 @@ Init == /\ eps = SetupResult.S.eps
 
 Step(s) == LET d == Do([eps |-> eps, chan |-> chan], s) IN
            /\ eps' = d.S.eps /\ chan' = d.S.chan /\ last' = d.last
-           /\ hist' = IF EMIT THEN Append(hist, d.last) ELSE hist
+           \* (the witness keeps the prediction of its last step only: every edge is the last step of its own witness)
+           /\ hist' = IF EMIT THEN Append([i \in 1..Len(hist) |-> [f \in DOMAIN hist[i] \ {"p"} |-> hist[i][f]]], d.last) ELSE hist
            /\ src' = IF EMIT THEN <<eps, chan>> ELSE src
 
 Next == TLCGet("level") < MaxDepth /\
@@ -218,9 +219,9 @@ P_C01_DeliveredSendsAccepted ==
         \/ last.p.r.c \in {"InvalidBodyLengthError", "DenialOfServiceError"}
         \* known finding sent_window_overflow_unchecked: update_settings announces an INITIAL_WINDOW_SIZE that, added to a stream
         \* window the same endpoint enlarged with increment_flow_control_window, exceeds 2^31-1 at the peer
+        \* (the announcing endpoint fails in the same way when the acknowledgement comes back)
         \/ /\ last.p.r.c = "FlowControlError"
-           /\ \E i \in 1..Len(InFrames) : InFrames[i].t = "SET" /\ ~InFrames[i].ack
-                                            /\ \E j \in 1..Len(InFrames[i].s) : InFrames[i].s[j][1] = 4
+           /\ \E i \in 1..Len(InFrames) : InFrames[i].t = "SET" /\ (InFrames[i].ack \/ \E j \in 1..Len(InFrames[i].s) : InFrames[i].s[j][1] = 4)
 \* C13: the HPACK encoder context becomes unpredictable only through a marked failed-send deviation
 P_C13_CleanSendsDecode == \A x \in Roles : eps[x].hd => "failed_send_partial_state" \in eps[x].dev
 \* C02: no emitted DATA frame is larger than the peer's MAX_FRAME_SIZE in force when it was sent
